@@ -60,11 +60,11 @@ func init() {
 		return modelNewIterator(ex, st, com, args, false, n)
 	}
 	goInvokeModels = map[string]goInvokeModel{
-		"Valid": modelIterValid,
-		"Next":  modelIterNext,
-		"Key":   modelIterKey,
-		"Value": modelIterValue,
-		"Close": modelIterClose,
+		"Valid":         modelIterValid,
+		"Next":          modelIterNext,
+		"Key":           modelIterKey,
+		"Value":         modelIterValue,
+		"Close":         modelIterClose,
 		"Get":           modelStoreGet,
 		"Has":           modelStoreHas,
 		"Set":           modelStoreSet,
